@@ -43,6 +43,9 @@ def run(ctx):
                     specs = ["default", "circle", "gapped-circle", "gapped-square", "ratio0.5", "ratio0.65sq", "ratio1circle", "eye-circle"]
                     for spec in (specs if (tier == "thorough" or v == 1) else rnd.sample(specs, 3)):
                         cases.append((v, fname, F, box, b, spec))
+    # the largest symbols (more than 8 192 dark modules from about version 28) on the path and rect factories
+    for v, fname in ((40, "path"), (31, "pathfill"), (36, "image")) if tier != "thorough" else ((40, "path"), (31, "pathfill"), (36, "path"), (28, "path"), (40, "image"), (40, "fragment")):
+        cases.append((v, fname, dict(facs)[fname], 10, 4, "default"))
     reqs, exps, metas = [], [], []
     for (v, fname, F, box, b, spec) in cases:
         is_path = fname in ("path", "pathfill")
@@ -63,7 +66,7 @@ def run(ctx):
             kw["module_drawer"] = ci(size_ratio=Decimal(1)); md = ("circle", 1, 1)
         elif spec == "eye-circle":
             kw["eye_drawer"] = ci(size_ratio=Decimal("0.8")); ed = ("circle", 4, 5)
-        data = gens.payload(rnd, rnd.choice(["lower", "digits", "bytes"]), rnd.randrange(1, 9))
+        data = gens.payload(rnd, rnd.choice(["lower", "digits", "bytes"]), rnd.randrange(1, 9) if v < 28 else 1200)
         q = qrcode.QRCode(version=v, border=b, box_size=box)
         q.add_data(data, optimize=0)
         key = f"{fname} {spec} v{v} box{box} border{b} {data.hex()}"
